@@ -392,8 +392,21 @@ class Evict:
         pass
 
 
+class ReadThrough(dict):
+    """a dict subclass whose `[]` consults a (here: empty) backing store for absent keys and hands back its answer:
+    `k in cache` is False, `cache[k]` is None"""
+
+    def __missing__(self, k):
+        return None
+
+
+def _ddict():
+    import collections
+    return collections.defaultdict(lambda: None)
+
+
 def make_cache(kind):
-    return {'none': lambda: None, 'dict': dict, 'lru2': LRU2, 'evict': Evict}[kind]()
+    return {'none': lambda: None, 'dict': dict, 'lru2': LRU2, 'evict': Evict, 'ddict': _ddict, 'readthrough': ReadThrough}[kind]()
 
 
 _fresh_table = {}
